@@ -906,6 +906,15 @@ impl<'a> Exec<'a> {
         let rd = self.probe_copy(&mut div, &rev, later, 2);
         clk::set_now(self.now);
         rd?;
+        // ... and so is an unrelated scanner created with a different timeout (configuration kept
+        // anywhere but in the scanner value would leak from it)
+        {
+            let other_timeout = self.timeout.saturating_mul(2).saturating_add(Duration::from_secs(1));
+            let mut decoy = new_scn(if self.timeout.is_zero() { Duration::from_secs(3600) } else if self.timeout > Duration::from_secs(1 << 40) { Duration::ZERO } else { other_timeout })?;
+            let rx = self.probe_copy(&mut decoy, burst, later, 1);
+            clk::set_now(self.now);
+            rx?;
+        }
         let r2 = self.probe_copy(&mut p2, burst, self.now, 1);
         clk::set_now(self.now);
         let r2 = r2?;
